@@ -1,10 +1,3 @@
-import SV.Driver.Util
-/- svdriver_c02: line protocol for the C02 model (stub until the model is built). -/
-namespace SV.Driver.C02
-
-def step (s : Unit) : List String → Unit × String
-  | _ => (s, "bad-op")
-
-end SV.Driver.C02
-
-def main : IO Unit := SV.Driver.loop SV.Driver.C02.step ()
+import SV.Driver.LazyReadStep
+/- svdriver_c02: line protocol of the C02 model (shared with C15, see SV/Driver/LazyReadStep.lean). -/
+def main : IO Unit := SV.Driver.loop SV.Driver.LazyRead.step {}
